@@ -613,7 +613,7 @@ def frame_independence(seed, n):
     rng = random.Random(seed)
     fails, evals = [], 0
     # the first four cases of every run are the landmark-initialisation scenarios (below), so that they do not depend on the draw
-    forced_cases = [('SE2', 'origin'), ('SE3', 'origin'), ('SE2', 'far'), ('SE3', 'far')]
+    forced_cases = [('SE2', 'origin'), ('SE3', 'origin'), ('SE2', 'far'), ('SE3', 'far'), ('SE2', 'bigT'), ('SE3', 'bigT')]
     for i in range(n):
         forced = forced_cases[i] if i < len(forced_cases) else None
         kind = forced[0] if forced else rng.choice(['SE2', 'SE3', 'SE3', 'R2', 'R3'])
@@ -622,8 +622,8 @@ def frame_independence(seed, n):
             if not forced or any(type(v.pose).__name__ in ('PoseR2', 'PoseR3') for v in g._vertices):
                 break
             g, _ = build_graph(rng, kind)
-        big = rng.random() < 0.3 and not forced
-        sc = (1e4 if rng.random() < 0.5 else 10.0 ** rng.uniform(5, 7)) if big else 5.0        # up to UTM-sized coordinates
+        big = (rng.random() < 0.3 and not forced) or bool(forced and forced[1] == 'bigT')
+        sc = (1e4 if (rng.random() < 0.5 and not forced) else 10.0 ** rng.uniform(6 if forced else 5, 7)) if big else 5.0        # up to UTM-sized coordinates
         if kind == 'SE2':
             T = PoseSE2([rng.gauss(0, sc), rng.gauss(0, sc)], rng.choice([rng.uniform(-math.pi, math.pi), math.pi - 1e-4, -math.pi + 1e-4]))
         elif kind == 'SE3':
@@ -631,7 +631,7 @@ def frame_independence(seed, n):
         else:
             T = np.array([rng.gauss(0, sc) for _ in range(ce.DIM[kind])])
         far_lm = False
-        lm_mode = forced[1] if forced else (rng.choice(['origin', 'far']) if (kind in ('SE2', 'SE3') and rng.random() < 0.2) else None)
+        lm_mode = (forced[1] if forced[1] != 'bigT' else None) if forced else (rng.choice(['origin', 'far']) if (kind in ('SE2', 'SE3') and rng.random() < 0.2) else None)
         if lm_mode == 'origin':
             # landmarks without an initial guess are commonly created AT THE ORIGIN (exactly zero): a legitimate start like any other
             for v in g._vertices:
@@ -697,7 +697,7 @@ def frame_independence(seed, n):
                 at = 1e-3 * (1 + sc)      # residuals of thousands of units make the first steps violently non-linear: rounding is amplified a lot
             if len(exp) == 3 and kind == 'SE2' and len(got) == 3:
                 dth = math.remainder(exp[2] - got[2], 2 * math.pi)
-                ok = np.allclose(exp[:2], got[:2], rtol=0, atol=at) and abs(dth) < (1e-4 if far_lm else 1e-6 * (1 + sc / 1e3))   # headings see the same amplified rounding as the positions they are solved with
+                ok = np.allclose(exp[:2], got[:2], rtol=0, atol=at) and abs(dth) < (1e-4 if far_lm else 1e-6)   # far scenario: headings see the same amplified rounding as the positions they are solved with
             else:
                 ok = np.allclose(exp, got, rtol=0, atol=at)
             if not ok:
